@@ -3,6 +3,7 @@ from __future__ import annotations
 
 import ast
 import os
+import re
 import subprocess
 import sys
 
@@ -197,6 +198,75 @@ def class_level_state(rep: C.Report) -> None:
             ob.verdict = C.VIOLATED if v.known is None else C.KNOWN
         else:
             ob.detail = f"class-level mutable state {[p[2] for p in pairs]} but a French context after an English one behaves like a fresh one -> inconclusive"
+    except Exception as e:  # noqa: BLE001
+        ob.detail += f"{type(e).__name__}: {e}"
+
+
+REQ_ST = "hits = (hits or 0) + 1\nreturn {n = hits}"
+REQ_MAIN = "local p = {}\nfunction p.f(frame) local s = require('Module:vfst'); return tostring(s.n) end\nreturn p"
+
+
+def cached_chunks_rebound(rep: C.Report) -> None:
+    """Ob8: a chunk served from the loader cache (a module reached through require()) is re-bound to the environment of the
+    CURRENT invocation before it is handed out; otherwise it runs in the environment of the invocation that first loaded
+    it, and its globals survive invocations and pages.  Facts from the current Lua source of new_loader: (a) the cache-hit
+    block contains an unconditional setfenv(<chunk>, <env>) - not nested in a further `if`; (b) the defaulting of the
+    environment argument (`_python_top_env() or env`) precedes the cache lookup.  z3: finite query over the two facts;
+    replay on the real sandbox with a require()d module that counts in a global."""
+    ob = rep.add(C.Ob("Ob8 a cached module chunk is re-bound to the current invocation's environment (require() across invocations and pages)", "z3 over facts read from the current Lua source (finite) + replay on the real sandbox", ["lua/_sandbox_phase1.lua:new_loader"], "the cache-hit block of new_loader; replay: three invocations on two pages"))
+    try:
+        src = open(os.path.join(C.SRC, "lua", "_sandbox_phase1.lua")).read()
+        m = re.search(r"\nfunction new_loader\(.*?\n(.*?)\nend\n", src, re.S) or re.search(r"function new_loader\(.*?\)(.*?)\nend\n", src, re.S)
+        if not m:
+            ob.verdict, ob.detail = C.NOT_ENCODABLE, "new_loader not found"
+            return
+        body = "\n".join(line.split("--")[0] for line in m.group(1).splitlines())
+        hit = re.search(r"if\s+(?:loader_cache\[modname\]|cached_mod)\s*~=\s*nil\s+then(.*?)\n\s*return\s+cached_mod", body, re.S)
+        default_pos = body.find("_python_top_env()")
+        facts = {"cache_hit_block_found": bool(hit)}
+        if hit:
+            blk = hit.group(1)
+            depth, uncond = 0, False
+            for line in blk.splitlines():
+                t = line.strip()
+                if re.match(r"if\b.*\bthen$", t):
+                    depth += 1
+                elif t == "end":
+                    depth -= 1
+                elif t.startswith("setfenv(") and depth == 0:
+                    uncond = True
+            facts["setfenv_unconditional_on_cache_hit"] = uncond
+            facts["environment_defaulted_before_lookup"] = 0 <= default_pos < hit.start()
+        sol = z3.Solver()
+        bs = {k: z3.Bool(k) for k in facts}
+        for k, v in facts.items():
+            sol.add(bs[k] == v)
+        sol.add(z3.Not(z3.And(*bs.values())))
+        r = str(sol.check())
+        ob.queries = ob.paths = ob.conditions = 1
+        ob.samples.append(facts)
+        if r == "unsat" and not C.distrust():
+            ob.verdict = C.DISCHARGED
+            ob.confirmed_conditions = 1
+            return
+        from vf.wtpfix import close, new_ctx
+
+        w = new_ctx(modules={"vfst": REQ_ST, "vfreq": REQ_MAIN})
+        res = []
+        try:
+            w.start_page("P1")
+            res.append(w.expand("{{#invoke:vfreq|f}}"))
+            w.start_page("P2")
+            res.append(w.expand("{{#invoke:vfreq|f}}"))
+            res.append(w.expand("{{#invoke:vfreq|f}}"))
+        except Exception as e:  # noqa: BLE001
+            res.append(f"EXC {type(e).__name__}: {e}")
+        close(w)
+        if res != ["1", "1", "1"]:
+            v = rep.violation("page P1: expand('{{#invoke:vfreq|f}}'); page P2: the same twice - the module require()s a module that counts in a Lua global", f"counter values {res}: the required module keeps the environment of an earlier invocation (every invocation starts from a fresh environment: ['1', '1', '1'])", {"facts": facts})
+            ob.verdict = C.VIOLATED if v.known is None else C.KNOWN
+        else:
+            ob.detail = f"facts {facts} but a require()d module starts from a fresh environment in every invocation -> inconclusive"
     except Exception as e:  # noqa: BLE001
         ob.detail += f"{type(e).__name__}: {e}"
 
@@ -507,6 +577,7 @@ def run(rep: C.Report) -> None:
     lua_data_caches(rep)
     captured_not_rebound(rep)
     class_level_state(rep)
+    cached_chunks_rebound(rep)
 
 
 def replay(r: dict) -> int:
